@@ -22,6 +22,11 @@ open Interceptor.Driver Interceptor.Rtp Interceptor.TwccHdr
 structure St where
   c : Nat := 0
   streams : List (Nat × Nat) := []
+  /-- `retain`: the bottom writer keeps the header objects and they are printed at `flush` only -/
+  retain : Bool := false
+  held : List String := []
+  /-- caller-owned receive buffers: k ↦ the header `Header.Unmarshal` yields and the payload behind it -/
+  bufs : List (Nat × Header × Bytes) := []
 
 def parseDecls (s : String) : Option (List ExtDecl) :=
   if s == "-" then some [] else
@@ -82,6 +87,13 @@ def showHdr : Option Header → String
     | none => "err"
     | some b => showHex b
 
+/-- the error value the bottom writer returns for `be=<code>` (any value must be handed back as is,
+and the number stays consumed whatever it is). -/
+def bottomErrName (code : Nat) : String :=
+  match code with
+  | 1 => "bottom" | 2 => "closedpipe" | 3 => "eof" | 4 => "wrapped-closedpipe" | 5 => "netclosed"
+  | 6 => "canceled" | 7 => "shortwrite" | 8 => "deadline" | 9 => "osclosed" | _ => "bottom"
+
 def showOut (o : WriteOut) : List String :=
   (match o.forwarded with
    | none => []
@@ -91,8 +103,18 @@ def showOut (o : WriteOut) : List String :=
 
 def parseBottom (fs : List (String × String)) : Option BottomRes := do
   let bn ← getInt fs "bn"
-  let be ← parseBool fs "be"
-  pure (bn, be)
+  let be ← getNat fs "be"
+  if be > 9 then none else pure (bn, be != 0)
+
+/-- output of one Write: the `w` line (deferred in retain mode) and the `ret` line with the name of the
+bottom writer's error value. -/
+def emit (s : St) (c' : Nat) (o : WriteOut) (fs : List (String × String)) : St × List String :=
+  let code := (getNat fs "be").getD 0
+  let lines := (showOut o).map fun l => if l == "ret n=" ++ toString o.ret.1 ++ " err=bottom" then
+    "ret n=" ++ toString o.ret.1 ++ " err=" ++ bottomErrName code else l
+  if s.retain then
+    ({ s with c := c', held := s.held ++ lines.filter (·.startsWith "w ") }, lines.filter (! ·.startsWith "w "))
+  else ({ s with c := c' }, lines)
 
 /-- deterministic interleaving for the `conc` op: `g` threads, each `2*per` steps (allocate, forward). -/
 def lcg (x : Nat) : Nat := (x * 6364136223846793005 + 1442695040888963407) % 18446744073709551616
@@ -139,7 +161,7 @@ def step (s : St) (ts : List String) : St × List String :=
   match ts with
   | "setc" :: rest =>
     match getNat (fields rest) "v" with
-    | some v => if v < M32 then ({ c := v, streams := [] }, []) else (s, ["bad-op"])
+    | some v => if v < M32 then ({ s with c := v, streams := [] }, []) else (s, ["bad-op"])
     | none => (s, ["bad-op"])
   | "bind" :: rest =>
     let fs := fields rest
@@ -154,7 +176,7 @@ def step (s : St) (ts : List String) : St × List String :=
       | none => (s, ["bad-op"])
       | some id =>
         let (c', o) := write s.c id (some h) pl b
-        ({ s with c := c' }, showOut o)
+        emit s c' o fs
     | _, _, _, _ => (s, ["bad-op"])
   | "writenil" :: rest =>
     let fs := fields rest
@@ -164,8 +186,28 @@ def step (s : St) (ts : List String) : St × List String :=
       | none => (s, ["bad-op"])
       | some id =>
         let (c', o) := write s.c id none pl b
-        ({ s with c := c' }, showOut o)
+        emit s c' o fs
     | _, _, _ => (s, ["bad-op"])
+  | ["retain"] => ({ s with retain := true }, [])
+  | "buf" :: rest =>
+    let fs := fields rest
+    match getNat fs "k", parseHeader fs, (lookup fs "pl").bind hexBytes with
+    | some k, some h, some pl => ({ s with bufs := (k, h, pl) :: s.bufs.filter (·.1 != k) }, [])
+    | _, _, _ => (s, ["bad-op"])
+  | "writeu" :: rest =>
+    -- the header is `Header.Unmarshal` of caller buffer k (it aliases the buffer), the payload the bytes behind it
+    let fs := fields rest
+    match getNat fs "s", getNat fs "k", parseBottom fs with
+    | some st, some k, some b =>
+      match s.streams.lookup st, s.bufs.lookup k with
+      | some id, some (h, pl) =>
+        let (c', o) := write s.c id (some h) pl b
+        emit s c' o fs
+      | _, _ => (s, ["bad-op"])
+    | _, _, _ => (s, ["bad-op"])
+  | ["flush"] =>
+    -- what the bottom writer retained, as it looks at the end of the case; the caller's buffers and slices
+    ({ s with held := [] }, s.held ++ ["caller-buffer-modified=false"])
   | "burst" :: rest =>
     let fs := fields rest
     match getNat fs "s", getNat fs "n" with
